@@ -407,8 +407,17 @@ func (c *converter) Print(values []string) error {
 func (c *converter) Panic(value string) error {
 	c.callEchoFunc(value)
 	c.addLine(`set "_e=1"`)
-	c.addLine("goto :end")
+	c.addLine(c.panicJumpString())
 	return nil
+}
+
+// panicJumpString returns the jump which is taken after a panic. Within a function "exit /B" only leaves
+// the function, therefore the function is left and the caller checks for the panic after the call.
+func (c *converter) panicJumpString() string {
+	if c.inFunction() {
+		return fmt.Sprintf("goto :_ret_%s", c.mustCurrentFuncInfo().name)
+	}
+	return "goto :end"
 }
 
 func (c *converter) WriteFile(path string, content string, append string) error {
@@ -663,6 +672,9 @@ func (c *converter) Group(value string, valueUsed bool) (string, error) {
 func (c *converter) FuncCall(name string, args []string, returnTypes []parser.ValueType, valueUsed bool) ([]string, error) {
 	returnValues := []string{}
 	c.callFunc(caseSafeName(name), args)
+
+	// A panic within the called function ends the program.
+	c.addLine(fmt.Sprintf(`if "!_e!" neq "0" %s`, c.panicJumpString()))
 
 	if valueUsed {
 		for i := range returnTypes {
